@@ -11,6 +11,7 @@
    (pop), SCPI_SystemErrorCountQ.  The parameter value is the int32 already decoded (C04/C05 are about decoding). *)
 From Coq Require Import Bool List NArith ZArith Lia.
 From M Require Import RegModel RegProofs C12Latch CmdModel.
+From M Require IntFmtProofs.
 Import ListNotations.
 Local Open Scope N_scope.
 
@@ -117,6 +118,16 @@ Proof.
   - split; [intros H0; exfalso; apply NE; apply (f_equal Z.of_N) in H0; rewrite Z2N.id in H0 by lia; exact H0|discriminate].
 Qed.
 
+(* the response text is the canonical decimal text of the reported number, whole (the 33-byte buffer never truncates it) *)
+Theorem cmd_text_canonical s c :
+  cmd_text s c = option_map (fun n => firstn (Z.to_nat 33) (IntFmtProofs.canonical 32 (Z.of_N n) 10 true) ++ [13; 10]%Z) (cmd_resp s c).
+Proof.
+  unfold cmd_text. destruct (cmd_resp s c) as [n|]; [|reflexivity]. cbn [option_map].
+  apply (f_equal (@Some (list Z))). apply (f_equal (fun l => l ++ [13; 10]%Z)).
+  pose proof (IntFmtProofs.int2str_exact 32 (Z.of_N n) 33 10 true (or_introl eq_refl) ltac:(lia)) as E. cbv zeta in E.
+  rewrite E. reflexivity.
+Qed.
+
 (* the clearing queries *)
 Lemma wr_event_zero s e : e = ESR \/ e = OPER \/ e = QUES -> rg (fst (wr s e 0)) e = 0.
 Proof.
@@ -190,3 +201,4 @@ Print Assumptions stbq_reports_summaries.
 Print Assumptions event_query_clears.
 Print Assumptions cls_clears.
 Print Assumptions errcount_agrees_with_stb.
+Print Assumptions cmd_text_canonical.
